@@ -136,7 +136,7 @@ func runC14(c *Ctx) {
 		// half of the workspaces keep one statement per line; the others join lines, so that blocks open and close on the
 		// cursor's line (one-line ifs, two callbacks in one call, sibling blocks on one line)
 		join := []int{0, 0, 50, 100}[r.Intn(4)]
-		sw := GenScopeWS(r, ScopeCfg{Unique: true, NoMulti: true, NFiles: r.Range(1, 3), Depth: r.Range(2, 4), JoinPct: join})
+		sw := GenScopeWS(r, ScopeCfg{Unique: true, NoMulti: true, NFiles: r.Range(1, 3), Depth: r.Range(2, 4), JoinPct: join, Zoo: r.Fork(0x7a6f6f).Chance(1, 4)})
 		c.Count(fmt.Sprintf("workspaces_line_join_%d_percent", join), 1)
 		// globals defined through the global table (documented as plain globals): _G.x = v, _G["x"] = v, function _G.x() end
 		viaG := map[string]bool{}
